@@ -23,22 +23,25 @@ RULE = ("items generated from the seed; 3 of 4 are one pricing on a fresh engine
         "calls with 1-4 dyadic strikes (scalar and vector form), notional and df dyadic, 0-4 controls drawn from {forward, x^2/8, "
         "call, PUT} with notionals in {1, 2, 1/2, -1, -1/2, 2^-24, 2^20} (call+put pairs forced half of the time; exactly COLLINEAR sets "
         "{forward, call K, put K} forced in half of the runs with 3-4 controls, duplicated controls in 15% of the 2-control runs), prices "
-        "scalars (d = 1) or per-component arrays, arbitrary or equal to the controls' sample means; plus 48 (thorough 600) single pricings "
+        "scalars (d = 1) or per-component arrays, arbitrary or equal to the controls' sample means; plus 48 (thorough 200) single pricings "
         "without controls that alternate nb_of_processes = 1 / 2 (real pathos pool), spot statistics on / off, n = 0, 1, 2, 3 and 2-40 (300) "
-        "pairwise distinct path values; non-trivial = at least 3 paths and (d >= 2 or a control or 2 processes or spot statistics on), or "
+        "pairwise distinct path values; plus 30 (thorough 60) single pricings WITH 1-4 controls (same control families, collinear sets included) "
+        "on a fresh engine with nb_of_processes cycling through 2, 3, None (Pool(processes=None): one worker per CPU; half of these with "
+        "70-130 paths so that map_async hands out chunks) and 1 (control group), spot statistics on, 3-40 (130) pairwise distinct paths; non-trivial = at least 3 paths and (d >= 2 or a control or 2 processes or spot statistics on), or "
         "any re-pricing on a used engine")
 MODELLED = ["standard Engine.price, BOTH branches of the Monte-Carlo loop (engine.py:116-149): the single-process loop and the multi-process "
             "branch (pool.map_async + callback; which draw gets which iteration index is an oracle sigma, the list of delivered results is "
             "arbitrary), MCPath.process/discount, Product.__call__, MCStatistics.add with the spot statistics on or off, "
             "MCStatistics.price/mc_stddev/get_variance as reported for n = 0 (price 0, mc_stddev raises AttributeError, get_variance nan), "
             "n = 1 (the single number 0.0) and n >= 2, tools.mean/stddev/mc_stddev, ControlVariates.helper_compute_coefficients/"
-            "compute_coefficients: hand models Model/McStats.v, Model/McStdFull.v, Model/McCv.v tied by vm_compute correspondence",
+            "compute_coefficients: hand models Model/McStats.v, Model/McStdFull.v, Model/McCv.v, Model/McStdCv.v tied by vm_compute correspondence",
             "b* for ANY number of controls: the guard, else np.linalg.lstsq on the correlation matrix modelled by its specification written "
             "without square roots (Sigma b = Sigma_XY and diag(Sigma) b = Sigma w for some w: the solution of minimal norm on the "
             "correlation scale; proved unique, so the model has exactly one b* also for collinear controls). The harness computes (b, w) "
             "by an exact Fraction solve (harness/c07_exact.py); Coq re-checks the specification on the replayed sample (code_bb, proved "
             "sound) and compares Y - b.(X - p) with the adjusted rows the implementation stored (1e-6), for 1-4 controls, full rank, "
-            "collinear (rank 1-3) and guarded; only components with 0 < |det Sigma_X| < 1e-9 prod diag are skipped (counted in the evidence). "
+            "collinear (rank 1-3) and guarded; skipped (counted in the evidence): components with 0 < |det Sigma_X| < 1e-9 prod diag, and collinear "
+            "components where lstsq saw numerical full rank (see ASSUMPTIONS). "
             "The closed forms for one and two controls remain as a second, independent model (group cv)",
             "for EVERY case (no skip) the oracle checks var(adj) <= var(raw), price() = mean(adj) and that adj is uncorrelated with every "
             "control (the b-free form of the normal equations)",
@@ -47,14 +50,27 @@ MODELLED = ["standard Engine.price, BOTH branches of the Monte-Carlo loop (engin
             "the oracle checks that every simulated spot value is stored exactly once and that price / error are those of the path set",
             "the engine's statistics across pricings are state; np.empty is an oracle that may return the previous rows (the executable "
             "model recycles them)",
-            "np.cov(bias=True), np.std(ddof=1), np.mean: modelled as the textbook sums; np.linalg.lstsq: by specification (existence of "
-            "the minimal-norm certificate w is established per replayed case, not proved in general)",
-            "not modelled: the density plots of the spot statistics, the order in which map_async delivers results (the theorem holds "
-            "for every order), nb_of_processes > 2 / None, control variates in the multi-process branch (same callback code)"]
+            "np.cov(bias=True), np.std(ddof=1), np.mean: modelled as the textbook sums; np.linalg.lstsq: by specification; existence of "
+            "the specified answer (b and its minimal-norm certificate w) is PROVED for every k and every sample without a degenerate "
+            "control (C07_lstsq_answer_exists), so together with uniqueness the model has exactly one b* (C07_code_b_exists_unique)",
+            "control variates inside BOTH loop branches (Model/McStdCv.v): statistics.add stores the payoff row and the control rows of the "
+            "path held by the path manager at the same index; which draw gets which index is the oracle sigma, the delivery order is "
+            "arbitrary; compute_coefficients then works on the two tables. Driven on real pools with nb_of_processes = 2, 3 and None "
+            "(one worker per CPU) and on the single-process loop: sigma is observed through the spot statistics, Coq rebuilds the two "
+            "tables from the exact per-draw values and sigma (tbl_merge), compares them exactly with the stored ones, re-checks the "
+            "specification of b* on them (code_bb) and compares the adjusted column (1e-6); the oracle checks every run on the rows in "
+            "the order the pool assigned them",
+            "not modelled: the density plots of the spot statistics, the order in which map_async delivers results (the theorems hold "
+            "for every order), how the pool assigns draws to indices (oracle sigma, observed on every run)"]
 ASSUMPTIONS = ["the error is compared squared (Q has no square root): mc_stddev()**2 = var_unbiased/n",
                "multi-process: the pool evaluates simulating_one_path once per iteration index and hands every result to the callback "
-               "(hypotheses `its` covers 0..n-1, sigma permutes the draws; checked on every real 2-process run by the oracle)",
-               "np.linalg.lstsq returns the minimal-norm least-squares solution (its documented specification)"]
+               "(hypotheses `its` covers 0..n-1, sigma permutes the draws; checked on every real pool run -- nb_of_processes 2, 3, None -- by the oracle)",
+               "np.linalg.lstsq returns the minimal-norm least-squares solution (its documented specification) OF THE MATRIX IT IS GIVEN: for "
+               "exactly collinear controls this is the model's b* only when the rounded correlation matrix is numerically rank deficient for "
+               "rcond=None (cut-off eps*k); observed: always for n <= 40, not always for n of a few hundred -- lstsq then returns another "
+               "solution of the normal equations (same variance, adjusted rows shifted by a constant when the given prices do not satisfy the "
+               "collinearity relation). Those components are recognised on the outputs (constant shift), counted in the evidence "
+               "(cvk_collinear_components_where_lstsq_saw_full_rank) and checked by the oracle only"]
 THEOREM_NOTES = {
     "C07_error_per_component": "model of the repaired tools.mc_stddev (fix-mc dee7ba4); the pre-repair divisor n*d is the Example C07_error_vector_before_repair",
     "C07_cv_variance": "conditional on b solving the normal equations; variance is the biased sample variance np.cov(bias=True) the code uses "
@@ -67,8 +83,18 @@ THEOREM_NOTES = {
                             "for every b' and all centring prices: b is THE sample regression coefficient; b' = 0 gives var(adj) <= var Y",
     "C07_normal_equations_solvable": "existence for every k and sample by Gram-Schmidt on the controls (induction on k, Cauchy-Schwarz for a control without "
                                      "residual variance); hence lstsq's least-squares minimiser is an exact solution of the normal equations",
-    "C07_lstsq_spec_unique": "uniqueness of the minimal-norm solution (specification of lstsq on the correlation scale, square-root free); existence of the "
-                             "certificate w is NOT proved in general (shown by the exact solve on every replayed case and by Example C07_three_collinear_controls)",
+    "C07_lstsq_spec_unique": "uniqueness of the minimal-norm solution (specification of lstsq on the correlation scale, square-root free); existence is "
+                             "C07_lstsq_answer_exists",
+    "C07_lstsq_answer_exists": "existence of (b, w) for every k and sample whose controls all have positive variance (what the guard ensures): Gram-Schmidt for an "
+                               "abstract positive semi-definite symmetric form (gram_solvable in Proofs/C07_LstsqExists.v), instantiated with "
+                               "<u,v> = sum_l u_l v_l / Sigma_ll on the columns of Sigma_X and the target diag(Sigma) b0, b0 a solution of the normal equations; "
+                               "b = D^-1 Sigma w. Square-root free, over Q",
+    "C07_code_b_exists_unique": "for every sample, k and n > 0 exactly one coefficient vector (up to == componentwise) meets the specification of "
+                                "helper_compute_coefficients (guard -> 0, else lstsq); that numpy's lstsq meets its specification stays an assumption",
+    "C07_cv_tables_any_order": "payoff and control tables are written by the same statistics.add(it, path_manager): one component of the payoff (ycol) and the "
+                               "vector of controls (crow) as functions of the draw; indices beyond n excluded by hypothesis (IndexError)",
+    "C07_cv_multiprocess_same": "hypothesis: sigma permutes 0..n-1 (observed on every real run, not proved); conclusion for every b meeting the specification on "
+                                "the permuted tables; C07_cv_multiprocess_same_b adds (guard not firing) that it equals the single-process b componentwise",
     "C07_cv_code_b_any_k": "code_b = guard -> b = 0, else lstsq by specification; conclusion: var(adj) <= var Y always; without the guard least variance over all b' and uniqueness of b",
     "C07_code_b_check_sound": "links the boolean the vm_compute correspondence evaluates (code_bb) to the Prop the theorems are about",
     "C07_merge_any_order": "the value written at row it depends on it only (through sigma), so order / chunking / repeated delivery of results cannot matter; "
@@ -81,7 +107,7 @@ THEOREM_NOTES = {
                  "power-of-two notionals, the implementation runs on notionals 2^-24 ... 2^20); the oracle separately flags 'b = 0 although no "
                  "control is degenerate'. The old absolute guard min|Sigma_X| < 1e-12 also fired for tiny notionals and for two uncorrelated controls (F-C07-3, repaired)",
 }
-LEVEL_TEXT = ("Proof: 18 Coq theorems (closed under the global context): for every path function, payoff, df, notional, size and np.empty "
+LEVEL_TEXT = ("Proof: 23 Coq theorems (closed under the global context): for every path function, payoff, df, notional, size and np.empty "
               "content the engine loop stores df*notional*payoff(path_i) for each path exactly once and price() is df*notional*mean per "
               "component; the same for the multi-process branch for every order/chunking of the delivered results and every assignment of "
               "draws to indices, with the spot statistics holding the spot of the same path, and price/error equal to the single-process "
@@ -89,14 +115,18 @@ LEVEL_TEXT = ("Proof: 18 Coq theorems (closed under the global context): for eve
               "paths; mc_stddev()^2 is the unbiased variance of each component divided by the number of paths and get_variance() that "
               "variance; n = 0 and n = 1 as reported; for every coefficient vector b the control-variate mean is mean Y - b.(mean X - price); "
               "for ANY number of controls the normal equations are solvable, every solution b minimises the variance of Y - b'.(X - p') over "
-              "all b' (so var(adj) <= var Y), the minimal-norm solution the code's lstsq is specified to return is unique, and the one/two-"
-              "control closed forms solve the normal equations. Model tied to /repo by vm_compute replay of ~680 scripted Engine.price "
-              "pricings incl. ~100 multi-pricing sequences on one engine and 24 real 2-process runs (rows exact, statistics 1e-9, adjusted "
+              "all b' (so var(adj) <= var Y), the minimal-norm solution the code's lstsq is specified to return EXISTS (no degenerate control) and is "
+              "unique, so the specification of the code's b* (guard, else lstsq) is met by exactly one vector for every sample; the one/two-"
+              "control closed forms solve the normal equations; with controls, payoff and control tables hold at each index the values of "
+              "one draw for every delivery order, and a multi-process run (rows permuted) has the same b*, control-variate price and "
+              "variance as the single-process run. Model tied to /repo by vm_compute replay of ~710 scripted Engine.price "
+              "pricings incl. ~100 multi-pricing sequences on one engine, 24 real 2-process runs without and 25 real pool runs with "
+              "1-4 controls for nb_of_processes = 2, 3, None (rows exact, statistics 1e-9, adjusted "
               "rows 1e-6 against the exactly solved specification for 1-4 controls incl. collinear sets).")
-LEVEL_NOTE = ("Trusted: Coq kernel + vm_compute; hand models Model/McStats.v, McStdFull.v, McCv.v (correspondence, not translation); numpy "
+LEVEL_NOTE = ("Trusted: Coq kernel + vm_compute; hand models Model/McStats.v, McStdFull.v, McCv.v, McStdCv.v (correspondence, not translation); numpy "
               "mean/std/cov semantics; np.linalg.lstsq by its specification (minimal-norm least squares); the pool calls every index once.")
 TECHNIQUE = ("Coq proof (loop invariant for all delivery orders, permutation invariance, bilinearity of the sample covariance over Q, Gram-Schmidt "
-             "existence, uniqueness of the minimal-norm solution) + vm_compute correspondence with scripted processes and exact Fraction certificates")
+             "existence for an abstract semi-inner product (normal equations and minimal-norm certificate), uniqueness of the minimal-norm solution) + vm_compute correspondence with scripted processes and exact Fraction certificates")
 
 TOL9 = Fraction(1, 10 ** 9)
 HEADER = ("From Coq Require Import ZArith QArith List Bool.\nFrom RV Require Import Base.QB Model.McStats Model.McCv Model.McStdFull.\nOpen Scope Q_scope.\n"
@@ -207,10 +237,19 @@ def control_exact(c, x: Fraction, j):
     return max(K + j - x, Fraction(0))
 
 
-def run_sequence(specs):
-    """prices every spec of the list, in order, on ONE Engine instance / ONE process (engine-level fields -- df,
-    controls, prices -- are those of the first spec); returns one obs per pricing, taken right after it"""
+def _exact_controls(first, spec):
+    df = Fraction(first["df"])
+    return [[[df * Fraction(c["notional"]) * control_exact(c, Fraction(x), j) for c in first["controls"]] for x in spec["paths"]]
+            for j in range(spec["d"])]     # [component][path][control]
+
+
+def run_sequence(specs, nproc=1):
+    """prices every spec of the list, in order, on ONE Engine instance (engine-level fields -- df, controls, prices -- are
+    those of the first spec); returns one obs per pricing, taken right after it.  nproc = 1: the single-process loop;
+    nproc = 2, 3, ... or None (Pool(processes=None) = one worker per CPU): the multi-process branch on a real pool, the
+    scripted path values then come from a shared-memory counter (c07_mp.ScriptedProcessMP)"""
     from mcscript import ScriptedProcess, make_product, make_control_variates, WarningCatcher
+    from c07_mp import ScriptedProcessMP
     from rpylib.montecarlo.standard.engine import Engine
     from rpylib.montecarlo.configuration import ConfigurationStandard
     first = specs[0]
@@ -230,8 +269,11 @@ def run_sequence(specs):
         prices = [p[0] for p in pr] if first["scalar_prices"] else [np.array(p) for p in pr]
         cv = make_control_variates([control_fun(c, d0) for c in first["controls"]], prices,
                                    notionals=[c["notional"] for c in first["controls"]])
-    proc = ScriptedProcess([x for s in specs for x in s["paths"]], df=first["df"], dimension=1)
-    eng = Engine(ConfigurationStandard(mc_paths=first["n"], nb_of_processes=1, seed=7, control_variates=cv,
+    mp = nproc != 1
+    proc = (ScriptedProcessMP if mp else ScriptedProcess)([x for s in specs for x in s["paths"]], df=first["df"], dimension=1)
+    if mp:
+        proc.reset()
+    eng = Engine(ConfigurationStandard(mc_paths=first["n"], nb_of_processes=nproc, seed=None if mp else 7, control_variates=cv,
                                        activate_spot_statistics=bool(first.get("spot_stats"))), proc)
     out = []
     for spec in specs:
@@ -244,11 +286,11 @@ def run_sequence(specs):
             fun = lambda x, k=spec["strikes"][0]: max(x - k, 0.0)              # noqa
         product = make_product(notional=spec["notional"], dimension=spec["d"], fun=fun)
         eng.configuration.mc_paths = spec["n"]
-        before = proc.calls
+        before = proc.drawn() if mp else proc.calls
         with WarningCatcher(), np.errstate(all="ignore"), warnings.catch_warnings():
             warnings.simplefilter("ignore")
             st = eng.price(product)
-            obs = {"calls": proc.calls - before, "rows": np.array(st._payoff_statistics.stats),
+            obs = {"calls": (proc.drawn() if mp else proc.calls) - before, "rows": np.array(st._payoff_statistics.stats),
                    "price_raw": np.atleast_1d(st.price(no_control_variates=True)).astype(float),
                    "err_raw": np.atleast_1d(st.mc_stddev(no_control_variates=True)).astype(float),
                    "price": np.atleast_1d(st.price()).astype(float), "err": np.atleast_1d(st.mc_stddev()).astype(float)}
@@ -428,6 +470,20 @@ def oracle(spec, obs):
     return out
 
 
+def _null_shift(xn, yn, p, adj, b):
+    """exactly COLLINEAR controls only.  lstsq works on the ROUNDED correlation matrix; when rounding leaves its smallest singular
+    value above lstsq's cut-off (eps * k * largest: seen for n of a few hundred) lstsq treats it as regular and its answer carries an
+    arbitrary component along the null vector of Sigma_X: still a solution of the normal equations (the oracle checks that on every
+    case), but not the minimal-norm one of the model.  Such a component moves every adjusted row by the SAME constant
+    (b - b').(mean X - p).  Returns True when the stored adjusted column differs from the model's by a constant (and not by less
+    than the tolerance): the case is then counted and not replayed in Coq."""
+    n, k = len(yn), len(b)
+    want = [yn[i] - sum(b[c] * (xn[i][c] - p[c]) for c in range(k)) for i in range(n)]
+    diff = [adj[i] - want[i] for i in range(n)]
+    tol = Fraction(1, 10 ** 6) * max(1, max(abs(v) for v in want))
+    return max(abs(v) for v in diff) > tol and max(diff) - min(diff) <= tol
+
+
 def _payload(spec, **det):
     p = {k: v for k, v in spec.items() if not k.startswith("_")}
     p.update(det)
@@ -464,7 +520,7 @@ def _zero_paths(res):
 def correspond(res):
     rng = random.Random(res.seed)
     _zero_paths(res)
-    n_items = 420 if res.tier == "quick" else 5000
+    n_items = 420 if res.tier == "quick" else 1200
     eng_cases, cv_cases, cvk_cases, low_k, all_k = [], [], [], 0, 0
     for i in range(n_items):
         specs = gen_sequence(rng, res.tier) if i % 4 == 3 else ([gen_tight(rng, res.tier)] if i % 10 == 1 else [gen_spec(rng, res.tier)])
@@ -522,6 +578,11 @@ def correspond(res):
                         continue
                     else:
                         cls = "full rank"
+                    if cls.startswith("collinear") and _null_shift(xn, yn, [Fraction(spec['prices_used'][c][j]) / Fraction(lx[c]) for c in range(ncv)],
+                                                                   [Fraction(float(v)) / Fraction(ly) for v in obs['adj'][:, j]], cert["b"]):
+                        res.bump("cvk_collinear_components_where_lstsq_saw_full_rank (b* off the minimal-norm solution by a null vector; adjusted rows "
+                                 "shifted by a constant; oracle only, not replayed in Coq)", f"k={ncv} n={'<=40' if n <= 40 else '>40'}")
+                        continue
                     low_k += ncv <= 2
                     if ncv <= 2 and cls != "collinear (rank 1 < 2)" and low_k % 3:
                         continue
@@ -537,17 +598,25 @@ def correspond(res):
     for name, cs in (("engine", eng_cases), ("cv", cv_cases), ("cvk", cvk_cases)):
         if not cs:
             res.broke(f"correspondence {name}", "the group has no case: nothing would be compared (generator or driver problem)")
-    bad, nsh = parallel_coq_bad(PROP, "engine", HEADER, "list seq_case", "corr_seq tol", eng_cases,
-                                shard=40 if res.tier == "quick" else 100, timeout=900, jobs=12)
+    # the three groups are replayed CONCURRENTLY (each sharded over several coqc): the thorough tier then fits its time budget on a loaded machine
+    from concurrent.futures import ThreadPoolExecutor
+    ty = "nat * list Q * list (list Q) * list Q * list Q"
+    chk = ("fun c => match c with (nc, p, xs, y, adj) => match cv_adjust_tab nc p xs y with Some l => Qclose_list tol6 l adj "
+           "| None => false end end")
+    sh = 40 if res.tier == "quick" else 60
+    with ThreadPoolExecutor(3) as ex:
+        f_eng = ex.submit(parallel_coq_bad, PROP, "engine", HEADER, "list seq_case", "corr_seq tol", eng_cases, shard=sh, timeout=900, jobs=8)
+        f_cv = ex.submit(parallel_coq_bad, PROP, "cv", HEADER, ty, chk, cv_cases, shard=sh, timeout=900, jobs=6)
+        f_cvk = ex.submit(parallel_coq_bad, PROP, "cvk", HEADER, "cvk_case", "corr_cvk tol6", cvk_cases, shard=sh, timeout=900, jobs=8) if cvk_cases else None
+        bad, nsh = f_eng.result()
+        cv_result = f_cv.result()
+        cvk_result = f_cvk.result() if f_cvk else None
     res.case_lemmas += nsh
     if bad:
         res.broke("correspondence engine", f"model and implementation differ on {len(bad)} pricing sequences, first: {eng_cases[bad[0]][:1500]}")
     else:
         res.case_ok += nsh
-    ty = "nat * list Q * list (list Q) * list Q * list Q"
-    chk = ("fun c => match c with (nc, p, xs, y, adj) => match cv_adjust_tab nc p xs y with Some l => Qclose_list tol6 l adj "
-           "| None => false end end")
-    bad, nsh = parallel_coq_bad(PROP, "cv", HEADER, ty, chk, cv_cases, shard=40 if res.tier == "quick" else 100, timeout=900, jobs=12)
+    bad, nsh = cv_result
     res.case_lemmas += nsh
     res.bump("cv_coq_cases", len(cv_cases))
     if bad:
@@ -555,13 +624,13 @@ def correspond(res):
     else:
         res.case_ok += nsh
     if cvk_cases:
-        _cvk_group(res, cvk_cases)
+        _cvk_group(res, cvk_cases, cvk_result)
     correspond_full(res, rng)
+    correspond_mpcv(res, random.Random(res.seed + 77))
 
 
-def _cvk_group(res, cvk_cases):
-    bad, nsh = parallel_coq_bad(PROP, "cvk", HEADER, "cvk_case", "corr_cvk tol6", cvk_cases, shard=40 if res.tier == "quick" else 100,
-                                timeout=900, jobs=12)
+def _cvk_group(res, cvk_cases, result):
+    bad, nsh = result
     res.case_lemmas += nsh
     if bad:
         res.broke("correspondence cvk", f"model (specification of lstsq on the correlation scale, any number of controls) and implementation "
@@ -578,7 +647,7 @@ def gen_full(rng, tier, i):
     d = rng.choice([1, 1, 2, 3])
     return {"kind": "full", "nproc": nproc, "n": n, "d": d, "ncv": 0, "vector_form": d > 1 or rng.random() < 0.3,
             "strikes": [rng.randrange(0, 40) / 8.0 for _ in range(d)],
-            "paths": [v / 32.0 for v in rng.sample(range(0, 65 * 4), n)],
+            "paths": [v / 32.0 for v in rng.sample(range(0, 65 * 4), n)] if n <= 200 else [v / 64.0 for v in rng.sample(range(0, 65 * 8), n)],
             "df": rng.choice([1.0, 0.5, 0.25, 0.75]), "notional": rng.choice([1.0, 2.0, 0.5, 8.0]),
             "controls": [], "price_mode": "arbitrary", "scalar_prices": True, "prices_raw": [],
             "spot_stats": True if nproc == 2 else ((i // 8) % 2 == 0 if i < 16 else rng.random() < 0.5)}
@@ -667,7 +736,7 @@ def _full_case(spec, obs, sigma):
 
 
 def correspond_full(res, rng):
-    n_items = 48 if res.tier == "quick" else 600
+    n_items = 48 if res.tier == "quick" else 200
     cases = []
     for i in range(n_items):
         spec = gen_full(rng, res.tier, i)
@@ -691,11 +760,139 @@ def correspond_full(res, rng):
     if not cases:
         res.broke("correspondence full", "the group has no case: nothing would be compared (generator or driver problem)")
         return
-    bad, nsh = parallel_coq_bad(PROP, "full", HEADER, "full_case", "corr_full tol", cases, shard=24 if res.tier == "quick" else 100, timeout=900, jobs=12)
+    bad, nsh = parallel_coq_bad(PROP, "full", HEADER, "full_case", "corr_full tol", cases, shard=24 if res.tier == "quick" else 40, timeout=900, jobs=12)
     res.case_lemmas += nsh
     if bad:
         res.broke("correspondence full", f"model (both loop branches, spot statistics, n = 0 / 1, get_variance) and implementation differ on "
                                          f"{len(bad)} pricings, first: {cases[bad[0]][:1500]}")
+    else:
+        res.case_ok += nsh
+
+
+# ----------------------------------------------------------------------------- control variates INSIDE the multi-process branch
+MPCV_PROCS = [2, 3, None, 3, None, 1]      # None: Pool(processes=None), one worker per CPU; 1: the single-process loop as the control group
+
+
+def gen_mpcv(rng, tier, i):
+    """one pricing with 1-4 controls on a fresh engine, nb_of_processes in {2, 3, None} (and 1 as the control group), spot statistics
+    on (they reveal which draw every row holds); path values pairwise distinct"""
+    spec = gen_spec(rng, tier)
+    spec["kind"] = "mpcv"
+    spec["nproc"] = MPCV_PROCS[i % len(MPCV_PROCS)]
+    spec["n"] = rng.choice([3, 5, 8, 13, 24, 40] + ([120] if tier != "quick" else []))
+    if spec["nproc"] is None and i % 2:
+        spec["n"] = rng.choice([70, 90, 130])      # more than 4 * (number of CPUs) tasks: map_async then hands out chunks of >= 2 indices
+    spec["paths"] = [v / 32.0 for v in rng.sample(range(0, 65 * 4), spec["n"])]
+    spec["ncv"] = [1, 2, 3, 3, 4][i % 5]
+    spec["controls"] = gen_controls(rng, spec["ncv"])
+    spec["prices_raw"] = [[rng.randrange(0, 64) / 8.0 for _ in range(spec["d"])] for _ in range(spec["ncv"])]
+    spec["spot_stats"] = True
+    return spec
+
+
+def run_mpcv(spec):
+    """(violations, sigma, spec in row order, obs)"""
+    obs = run_sequence([spec], nproc=spec["nproc"])[0]
+    n = spec["n"]
+    vals = [Fraction(v) for v in spec["paths"]]
+    sp = obs["spot"]
+    if sp.shape != (n, 1):
+        return [("spot statistics on: the spot array is not (number of paths) x (spot dimension)", {"shape": list(sp.shape)})], None, None, obs
+    seen = [Fraction(float(v)) for v in sp[:, 0]]
+    if sorted(seen) != sorted(vals) or obs["calls"] != n:
+        return [("the simulated paths are not each used exactly once: the spot statistics do not hold every simulated spot value once",
+                 {"nb_of_processes": spec["nproc"], "simulated": obs["calls"], "stored_spots": [float(v) for v in seen][:12],
+                  "scripted": spec["paths"][:12]})], None, None, obs
+    sigma = [vals.index(v) for v in seen]
+    out = []
+    if spec["nproc"] == 1 and sigma != list(range(n)):
+        out.append(("single-process loop: row i does not hold the i-th simulated path", {"sigma": sigma[:12]}))
+    perm = dict(spec)
+    perm["paths"] = [spec["paths"][k] for k in sigma]           # the paths in the order the pool assigned them to the rows
+    o = dict(obs)
+    o.pop("spot")
+    o["xs_exact"] = _exact_controls(spec, perm)                 # payoff row, control rows and spot row of one index: the SAME draw
+    out += oracle(perm, o)
+    for k in ("_cv_checked", "_cv_guard", "_cv_skipped", "_sigma_neg"):
+        if k in perm:
+            spec[k] = perm[k]
+    return out, sigma, perm, obs
+
+
+def _mpcv_case(spec, obs, sigma, j):
+    """Coq case for payoff component j (numbers normalised by the power-of-two notionals, exactly): tables BY DRAW NUMBER from
+    the exact formulas, sigma as observed, the three tables as stored by the implementation, b and w from the exact solve of the
+    specification on the stored tables.  None: nearly singular Sigma_X (not compared, counted)"""
+    n, ncv = spec["n"], spec["ncv"]
+    ly = Fraction(abs(spec["notional"]))
+    lx = [Fraction(abs(c["notional"])) for c in spec["controls"]]
+    df, no = Fraction(spec["df"]), Fraction(spec["notional"])
+    by_draw = _exact_controls(spec, spec)[j]                    # [draw][control]
+    ctab = [[by_draw[dr][c] / lx[c] for c in range(ncv)] for dr in range(n)]
+    ytab = [df * no * max(Fraction(x) - Fraction(spec["strikes"][j]), Fraction(0)) / ly for x in spec["paths"]]
+    xn = [[Fraction(float(obs["X"][i, c, j])) / lx[c] for c in range(ncv)] for i in range(n)]
+    yn = [Fraction(float(v)) / ly for v in obs["rows"][:, j]]
+    cert = c07_exact.lstsq_certificate(xn, yn)
+    if cert["kind"] == "guard":
+        cls = "guard (b = 0)"
+    elif cert["rank"] < ncv:
+        cls = f"collinear (rank {cert['rank']} < {ncv})"
+    elif cert["rel_det"] < Fraction(1, 10 ** 9):
+        return None, "nearly singular (0 < |det| < 1e-9 prod diag)"
+    else:
+        cls = "full rank"
+    if cls.startswith("collinear") and _null_shift(xn, yn, [Fraction(spec['prices_used'][c][j]) / lx[c] for c in range(ncv)],
+                                                   [Fraction(float(v)) / ly for v in obs['adj'][:, j]], cert["b"]):
+        return None, "collinear, lstsq saw full rank"
+    q = lambda l: lst([qlit(v) for v in l])                     # noqa
+    qq = lambda a: lst([q(r) for r in a])                       # noqa
+    return (f"({natlit(ncv)}, {lst([natlit(k) for k in sigma])}, {qq(ctab)}, {q(ytab)}, "
+            f"{q([Fraction(spec['prices_used'][c][j]) / lx[c] for c in range(ncv)])}, "
+            f"({qq(xn)}, {q(yn)}, {q([Fraction(float(v)) / ly for v in obs['adj'][:, j]])}), {q(cert['b'])}, {q(cert['w'])})"), cls
+
+
+def correspond_mpcv(res, rng):
+    n_items = 30 if res.tier == "quick" else 60
+    cases, full_cases = [], []
+    for i in range(n_items):
+        spec = gen_mpcv(rng, res.tier, i)
+        viol, sigma, perm, obs = run_mpcv(spec)
+        n, d, ncv = spec["n"], spec["d"], spec["ncv"]
+        label = "None (one per CPU)" if spec["nproc"] is None else str(spec["nproc"])
+        res.count(("mpcv", json.dumps(_payload(spec), sort_keys=True)), nontrivial=spec["nproc"] != 1,
+                  kind=f"control variates, loop nb_of_processes={label}")
+        res.bump("cv_runs_by_nb_of_processes", f"nb_of_processes={label}, {ncv} control(s)")
+        for what, det in viol:
+            res.violation(what, _payload(spec, **det))
+        if sigma is None:
+            continue
+        if spec["nproc"] != 1:
+            res.bump("cv_pool_assignment_sigma", f"nb_of_processes={label}: " + ("identity" if sigma == list(range(n)) else "a non-trivial permutation"))
+        o = dict(obs)
+        full_cases.append(_full_case(spec, o, sigma))
+        for j in range(d):
+            c, cls = _mpcv_case(spec, obs, sigma, j)
+            if c is None:
+                res.bump("mpcv_components_not_replayed", f"k={ncv} {cls}")
+                continue
+            res.bump("mpcv_cases (control variates in the loop branch)", f"nb_of_processes={label} k={ncv} {cls}")
+            cases.append(c)
+    if not cases or not full_cases:
+        res.broke("correspondence mpcv", "the group has no case: nothing would be compared (generator or driver problem)")
+        return
+    hdr = HEADER.replace("Model.McStdFull.", "Model.McStdFull Model.McStdCv.")
+    bad, nsh = parallel_coq_bad(PROP, "mpcv", hdr, "mpcv_case", "corr_mpcv tol6", cases, shard=12 if res.tier == "quick" else 20, timeout=900, jobs=12)
+    res.case_lemmas += nsh
+    if bad:
+        res.broke("correspondence mpcv", f"model (payoff and control tables written by the loop / the pool callback, then the specification of b*) and "
+                                         f"implementation differ on {len(bad)} components, first: {cases[bad[0]][:1500]}")
+    else:
+        res.case_ok += nsh
+    bad, nsh = parallel_coq_bad(PROP, "mpcvfull", HEADER, "full_case", "corr_full tol", full_cases, shard=15 if res.tier == "quick" else 50, timeout=900, jobs=12)
+    res.case_lemmas += nsh
+    if bad:
+        res.broke("correspondence mpcv-full", f"model (loop branches, raw statistics) and implementation differ on {len(bad)} pricings with control "
+                                              f"variates, first: {full_cases[bad[0]][:1500]}")
     else:
         res.case_ok += nsh
 
@@ -725,6 +922,13 @@ def replay(path):
         obs = run_full(spec)
         viol, sigma = oracle_full(spec, obs)
         print(f"nb_of_processes {spec['nproc']}, configured paths {spec['n']}, price() {obs['price_raw']}, mc_stddev() {obs['err_raw']}, sigma {sigma}")
+        for what, det in viol:
+            print("VIOLATED:", what, det)
+        return 1 if viol else 0
+    elif data.get("kind") == "mpcv":
+        spec = {k: data[k] for k in SPEC_KEYS + ("nproc",) if k in data}
+        viol, sigma, _, obs = run_mpcv(spec)
+        print(f"nb_of_processes {spec['nproc']}, configured paths {spec['n']}, controls {spec['ncv']}, price() {obs['price']}, raw {obs['price_raw']}, sigma {sigma}")
         for what, det in viol:
             print("VIOLATED:", what, det)
         return 1 if viol else 0
